@@ -10,6 +10,7 @@ from . import common as C
 DRV = lambda: os.path.join(C.BUILD, "sanitizedrv")
 MAX_CAUSE = 64 * 1024
 MAX_RELEASE = 128
+ORACLE_BIN = C.ORACLE
 
 
 def unhex(s):
@@ -214,8 +215,14 @@ def run_stream(ctx, name, workers, cases_each, extra=(), use_oracle=True):
     # oracle runs in parallel too
     mism_by_trace = {}
     if use_oracle and good:
-        ores = C.parallel([["sh", "-c", f'exec "{C.ORACLE}" {model} < "{out}"'] for out, _ in good], timeout=1500)
-        for (rc, text), (out, _) in zip(ores, good):
+        # (output goes to a file: C.parallel reads the pipe only after exit, and the MISMATCH
+        # lines of a broken tree exceed the pipe buffer)
+        C.parallel([["sh", "-c", f'exec "{ORACLE_BIN}" {model} < "{out}" > "{out}.oracle" 2>&1'] for out, _ in good], timeout=1500)
+        for out, _ in good:
+            try:
+                text = open(out + ".oracle", errors="replace").read()
+            except OSError:
+                text = ""
             m = re.search(r"SUMMARY cases=(\d+) steps=(\d+) mismatches=(\d+)", text or "")
             if not m:
                 ctx.violation(f"oracle-crash:{model}", f"rie-oracle {model} produced no summary", (text or "")[-2000:], found_input=False, tag="oracle")
@@ -233,7 +240,13 @@ def run_stream(ctx, name, workers, cases_each, extra=(), use_oracle=True):
         for k, v in s.get("distribution", {}).items():
             agg[k] = max(agg.get(k, 0), v) if k == "esc:max-ratio-x1000" else agg.get(k, 0) + v
     ctx.cov["distribution"][name] = agg
-    # judge every case model-free; then the model disagreements
+    # judge every case model-free; then the model disagreements. At most 2 reports per
+    # complaint class and stream (a broken sanitiser fails on thousands of cases; shrinking and
+    # reporting each would only crowd out the other findings).
+    seen = ctx.__dict__.setdefault("c20_classes", {})
+    def budget(cls):
+        seen[cls] = seen.get(cls, 0) + 1
+        return seen[cls] <= 2
     for out, _ in good:
         cases = C.parse_trace_cases(out)
         complained = set()
@@ -241,8 +254,12 @@ def run_stream(ctx, name, workers, cases_each, extra=(), use_oracle=True):
             bad = judge(lines)
             if bad:
                 complained.add(cid)
-                report(ctx, name, cid, lines, bad, None)
-        for m in mism_by_trace.get(out, [])[:8]:
+                cls = name + ":" + re.sub(r"b'.*|\d+", "", bad[0])[:50]
+                ctx.cov.setdefault("complaints", {})
+                ctx.cov["complaints"][cls] = ctx.cov["complaints"].get(cls, 0) + 1
+                if budget(cls):
+                    report(ctx, name, cid, lines, bad, None)
+        for m in mism_by_trace.get(out, []):
             mm = re.match(r"MISMATCH case=(\S+) step=(\d+)", m)
             cid = mm.group(1)
             if cid in complained:
@@ -251,7 +268,8 @@ def run_stream(ctx, name, workers, cases_each, extra=(), use_oracle=True):
             if name == "release" and non_ascii_case(lines):
                 # Unicode-space splitting of strings.Fields is not modelled (and not claimed)
                 continue
-            report(ctx, name, cid, lines, [], m)
+            if budget(name + ":model-disagreement"):
+                report(ctx, name, cid, lines, [], m)
     return agg
 
 
@@ -305,7 +323,18 @@ def check(ctx):
         return ctx.finish()
     ctx.obligations.append(("regenerate Rie/Gen/SanitizeConsts.lean from the built code", not notes, "\n".join(notes)))
     ok, lout = ctx.lean_obligations("C20")
-    use_oracle = ok and os.path.exists(C.ORACLE)
+    # private copy of the oracle binary, taken under the lake lock: other work packages relink
+    # rie-oracle concurrently and the file is briefly absent while they do
+    global ORACLE_BIN
+    ORACLE_BIN = os.path.join(ctx.work, "rie-oracle")
+    use_oracle = False
+    if ok:
+        with C.Lock("lake"):
+            try:
+                C.shutil.copy2(C.ORACLE, ORACLE_BIN)
+                use_oracle = True
+            except OSError as e:
+                ctx.violation("oracle-missing", "rie-oracle binary missing after a successful build", str(e), found_input=False, tag="oracle")
 
     n_err, n_cause, n_rel, n_h = (40000, 1400, 20000, 1000) if thorough else (5000, 250, 1500, 150)
     w = 8
